@@ -5,7 +5,7 @@ id=$1; wt=/tmp/seed/$id; out=/tmp/seed/$id.out
 export GOFLAGS=-mod=mod GOPROXY=off GOSUMDB=off GOTOOLCHAIN=local
 demo=$(python3 -c "import json;print(json.load(open('$out/meta.json'))['demo_path'])")
 cd $wt || exit 2
-git stash -q -u 2>/dev/null; git checkout -q -- . ; git clean -fdq
+git checkout -q -- . ; git clean -fdq   # (no git stash: the stash is shared between worktrees)
 git apply $out/patch.diff || { echo "patch does not apply"; exit 2; }
 go build ./... || { echo "BUILD FAILS"; exit 2; }
 suite=$(go test -vet=off -count=1 ./... 2>&1 | grep -v "no test files" | grep -vc "^ok")
